@@ -302,7 +302,7 @@ impl InnerField {
         }
 
         // check boundary
-        if len > 4 && payload.buf[0] == b'\r' {
+        if len >= 4 && payload.buf[0] == b'\r' {
             let b_len = if payload.buf.starts_with(b"\r\n") && &payload.buf[2..4] == b"--" {
                 Some(4)
             } else if &payload.buf[1..3] == b"--" {
@@ -314,7 +314,12 @@ impl InnerField {
             if let Some(b_len) = b_len {
                 let b_size = boundary.len() + b_len;
                 if len < b_size {
-                    return Poll::Pending;
+                    // cannot tell yet whether this is the boundary; at end of stream it never will be
+                    return if payload.eof {
+                        Poll::Ready(Some(Err(Error::Incomplete)))
+                    } else {
+                        Poll::Pending
+                    };
                 } else if &payload.buf[b_len..b_size] == boundary.as_bytes() {
                     // found boundary
                     return Poll::Ready(None);
@@ -330,6 +335,10 @@ impl InnerField {
                 if cur + 4 > len {
                     if cur > 0 {
                         Poll::Ready(Some(Ok(payload.buf.split_to(cur).freeze())))
+                    } else if payload.eof {
+                        // a field must be terminated by a boundary; the stream ended inside what
+                        // could only have been the start of one
+                        Poll::Ready(Some(Err(Error::Incomplete)))
                     } else {
                         Poll::Pending
                     }
